@@ -51,7 +51,20 @@ def make_ids():
     return ids
 
 
-def make_data(kind: str, shape, seed: int, rank: int):
+def make_data(kind: str, shape, seed: int, rank: int, dtype: str = "float"):
+    """data in the requested holder and its dense float reference.  dtype "int": integer-valued data stored as int64
+    (count-like data; the element type is a presentation - the fit must not depend on it)"""
+    X, Xd = _make_data(kind, shape, seed, rank, integral=(dtype == "int"))
+    if dtype == "int" and kind in ("dense", "sparse"):
+        import bind
+        ttb = bind.ttb
+        Xi = ttb.tensor(np.round(Xd.data).astype(np.int64))
+        X = Xi if kind == "dense" else Xi.to_sptensor()
+        assert X.data.dtype == np.int64 if kind == "dense" else X.vals.dtype == np.int64
+    return X, Xd
+
+
+def _make_data(kind: str, shape, seed: int, rank: int, integral: bool = False):
     import bind
     ttb = bind.ttb
     rng = np.random.RandomState(seed)
@@ -60,12 +73,16 @@ def make_data(kind: str, shape, seed: int, rank: int):
     # component sizes in the order (middle, small, large, ...): sorting them is not an involution
     wts = np.array([2.0, 1.0, 3.0, 5.0, 4.0, 6.0])[:U[0].shape[1]] if U[0].shape[1] >= 3 else np.arange(1, U[0].shape[1] + 1, dtype=float)
     base = ttb.ktensor(U, wts).full().data + 0.1 * rng.rand(*shape)
+    if integral:
+        base = np.round(4 * base)
     X = ttb.tensor(base)
     if kind == "dense":
         return X, X
     if kind == "sparse":
         D = base.copy()
         D[rng.rand(*shape) < 0.3] = 0
+        if integral and np.count_nonzero(D) < 2:
+            D.reshape(-1)[:2] = [1, 2]
         S = ttb.tensor(D).to_sptensor()
         return S, ttb.tensor(D)
     if kind == "ttensor":
@@ -107,7 +124,7 @@ def run_config(c: dict) -> dict:
     shape = tuple(c["shape"])
     N = len(shape)
     rank = c["rank"]
-    X, Xd = make_data(c["kind"], shape, c["seed"], rank)
+    X, Xd = make_data(c["kind"], shape, c["seed"], rank, c.get("dtype", "float"))
     ids = make_ids()
     rng = np.random.RandomState(c["seed"] + 7)
     init_kt = ttb.ktensor([rng.rand(s, rank) for s in shape], np.ones(rank))
@@ -221,7 +238,8 @@ def configs(cfgs: List[dict], tier: str) -> List[dict]:
                         "rank": rr.choice([r for r in (1, 2, 2, 3, 3) if r <= min(shape)]),
                         "seed": core.seed() + i % 7, "dimorder": c["dimorder"], "optdims": c["optdims"],
                         "maxiters": c["maxiters"], "stoptol": rr.choice([0.0, 1e-4]), "printitn": rr.choice([0, 1, 2]),
-                        "fixsigns": rr.choice([False, True]), "init": init})
+                        "fixsigns": rr.choice([False, True]), "init": init,
+                        "dtype": rr.choice(["float", "float", "int"]) if kind in ("dense", "sparse") else "float"})
             i += 1
     return out
 
